@@ -12,6 +12,8 @@ package main
 
 //@ ghost var lastreadok bool
 //@ ghost var lasteq bool
+// written: the packages (by index) for which translate has called writeFileIfChanged
+//@ ghost var written map[int]bool
 
 //@ assume func os.Exit (code)
 //@   noreturn
@@ -46,3 +48,6 @@ package main
 //@   at_call writeFileIfChanged [a file is written only for a package that translated, unless -ignore-errors] errs[i] == nil || ignoreErrors
 //@   loop 1 invariant [someError records every failed package so far] forall j int :: 0 <= j && j <= rangeindex ==> errs[j] == nil || someError
 //@   loop 1 invariant [one error slot per file] len(errs) == len(fs)
+//@   loop 1 ghost_init written
+//@   ghost_at_call writeFileIfChanged written = written[i := true]
+//@   loop 1 invariant [every package that translated, and every package under -ignore-errors, has been written] forall j int :: 0 <= j && j <= rangeindex && (errs[j] == nil || ignoreErrors) ==> written[j]
